@@ -18,6 +18,7 @@ macro_rules! dispatch {
             "C03" => $f::<props::c03::C03>($($arg),*),
             "C04" => $f::<props::c04::C04>($($arg),*),
             "C14" => $f::<props::c14::C14>($($arg),*),
+            "C19" => $f::<props::c19::C19>($($arg),*),
             "C20" => $f::<props::c20::C20>($($arg),*),
             other => {
                 eprintln!("unknown property id {other}");
